@@ -68,6 +68,16 @@ CHECKS = {
         'Trusted: Coq kernel + vm_compute; numpy slicing / fancy assignment / masks and deque.insert modelled functionally; dtype values rendered '
         'as integers (exact). Error class is compared only as error-vs-value (the property does not fix it). NZ hypothesis = assignments of non-zero values, as the property states.',
         '§4 C17'),
+    'C06': (
+        'Coq proof (dict-semantics id map = last term carrying the id; unconditional never-obsolete; lookup spec under disjoint ids; key listing) + per-run vm_compute correspondence with src/hpotk/ontology/_default.py, _api.py',
+        'Machine-checked theorems for every term collection and a term type generic in its payload (so for the minimal AND the full ontology): len / terms '
+        'are exactly the non-obsolete terms in input order; NO lookup ever returns an obsolete term and whatever is returned carries the queried id '
+        '(unconditional); with a disjoint id assignment a lookup of a primary or alternate id in any of the three argument forms returns exactly that current '
+        'term and any other id None; `in` is true iff the lookup succeeds; term_ids lists exactly the primary and alternate ids of current terms, each once, '
+        'and exactly these resolve; other argument kinds raise ValueError. Correspondence: random collections incl. obsolete terms with alternate ids, ids '
+        'shared between obsolete and current terms, clashing ids, both ontology kinds, all query forms, identity of the returned object.',
+        'Trusted: Coq kernel + vm_compute; dict modelled as association list with in-place overwrite; object identity rendered as list position.',
+        '§4 C06'),
     'C18': (
         'Coq proof (helpers, exists_path and augment_* over the proved graph model; union of closures for any collection) + per-run vm_compute correspondence with src/hpotk/algorithm/_traversal.py, _augment.py',
         'Machine-checked theorems for every graph built from an acyclic edge list, a bare graph or anything carrying one, CURIE or TermId sources: each '
